@@ -533,6 +533,9 @@ def bounded(tier, seed):
                 yield f"crafted{k_}", pr_, [plan_]
             for k_, (pr_, plan_) in enumerate(crafted_forall_accumulation()):
                 yield f"crafted-forall-accumulation{k_} [forall-increase-instances-on-one-ground-fluent]", pr_, [plan_]
+            from contracts import c04 as _c04      # quantified ASSIGNMENTS whose instances reach one ground fluent (Boolean: add-after-delete; numeric: conflict unless equal)
+            for k_, (_s, pr_) in enumerate(_c04.crafted_forall_assignment()):
+                yield f"crafted-forall-assignment{k_}", pr_, [[(Fraction(1), pr_.actions[0], (), None)]]
             for i in range(nprob):
                 s_ = seed * 100003 + i
                 g = TGen(s_)
